@@ -218,6 +218,25 @@ def quantifier_rule(ctx, rid):
             return False
         sel_in_try = any(isinstance(t, ast.Try) and any(reaches_sel(f, s_) for s_ in t.body) for t in ast.walk(f.node))
         if not sel_in_try and not any(isinstance(c, ast.Call) and isinstance(c.func, ast.Attribute) and c.func.attr == "sel" for c in ast.walk(f.node)):
+            # a positional look-up through the index: get_indexer / searchsorted do not raise for an absent label (they return -1 /
+            # an insertion point), so the KeyError the function relies on never comes and isel(-1) selects the last entry
+            def pos_lookup(fn, node, depth=0):
+                for c in ast.walk(node):
+                    if isinstance(c, ast.Call):
+                        if isinstance(c.func, ast.Attribute) and c.func.attr in ("get_indexer", "searchsorted", "get_indexer_for"):
+                            return fn, c
+                        cf = callee_func(ctx, fn, c)
+                        if cf is not None and cf.module is f.module and depth < 3:
+                            r_ = pos_lookup(cf, cf.node, depth + 1)
+                            if r_:
+                                ctx.touch(cf)
+                                return r_
+                return None
+            pl_ = pos_lookup(f, f.node)
+            if pl_:
+                rr.bad(ctx.finding(rid, pl_[0], pl_[1], "the requested location is looked up with `%s`, which does not raise for a coordinate value that is absent (it returns -1 / an insertion point): the location is then read at another position "
+                                   "(isel(-1) is the last entry) and an absent location is reported missing only if that other cell happens to be empty" % norm(pl_[1])[:60], construct="absent-label-no-keyerror"), "absent coordinates")
+                return rr
             raise AnalysisError("idiom changed: is_case_missing does not select the location with .sel (directly or in a helper)")
     if okk and sel_in_try:
         rr.ok("absent coordinates (KeyError from .sel) -> True")
@@ -252,6 +271,18 @@ def enumeration_rule(ctx, rid):
             rr.bad(ctx.finding(rid, f, sc, "`set(ignore_dims)` is applied without first excluding str: ignore_dims='time' becomes {'t','i','m','e'}, the dimension is not ignored and partially filled cells are reported missing", construct="ignore-dims-str"), "ignore_dims str")
     from ..pathcond import canon
     rets_ = [r_ for r_ in walk_shallow(f.node) if isinstance(r_, ast.Return) and isinstance(r_.value, ast.Tuple) and len(r_.value.elts) == 2 and isinstance(r_.value.elts[0], ast.Name)]
+    # a return that reports "nothing missing" without running the per-location test decides missingness by some criterion of its own
+    from ..pathcond import path_tests
+    short = [r_ for r_ in rets_ if isinstance(r_.value.elts[1], (ast.Tuple, ast.List)) and not r_.value.elts[1].elts]
+    for r_ in short:
+        conds = " and ".join(norm(t_) for t_, _ in path_tests(f.node, r_))
+        fixed = [w for w in (".count()", "notnull", "isnull", "isnan", "isfinite", "dropna") if w in conds]
+        if fixed:
+            rr.bad(ctx.finding(rid, f, r_, "find_missing_cases returns 'nothing missing' when `%s`: that decides missingness with a fixed criterion (%s), not with the requested `method` -- with method='isfinite' locations holding only +-inf are never reported" % (conds[:80], fixed[0]),
+                               construct="shortcut-fixed-criterion"), "no shortcut")
+        else:
+            raise AnalysisError("idiom changed: find_missing_cases returns an empty result under `%s`" % conds[:80])
+    rets_ = [r_ for r_ in rets_ if r_ not in short]
     need(len(rets_) == 1, "idiom changed: find_missing_cases does not return (names, cases)")
     FN = rets_[0].value.elts[0].id
     fa = single_def(f, FN, g)
